@@ -298,13 +298,21 @@ def scan_rules(rep, sfacts):
              'Compiler/src/scan.cpp:%d' % cs['loc'][1])
     okcalls = True
     ncalls = 0
-    for e in walk_all_exprs(scan['body']):
-        if is_call(e, 'create_scanner'):
-            ncalls += 1
-            a0, a1 = strip_casts(e['args'][0]), strip_conv(e['args'][1])
-            okcalls = okcalls and is_call(a0, '::operator[]') and show(strip_conv(a0['args'][0])) == show(a1)
-    S3.check(okcalls and ncalls >= 2, 'scan: create_scanner(files[X], X)', '%d call sites pass the content and the key of the same file' % ncalls,
-             'a scanner is created with the content of one file and the name of another', 'Compiler/src/scan.cpp:%d' % scan['loc'][1])
+    bad_call = None
+    for fn_ in sfacts.functions_in('scan.cpp'):
+        for e in walk_all_exprs(fn_['body']):
+            if is_call(e, 'create_scanner'):
+                ncalls += 1
+                a0, a1 = strip_casts(e['args'][0]), strip_conv(e['args'][1])
+                same = is_call(a0, '::operator[]') and show(strip_conv(a0['args'][0])) == show(a1)
+                if not same:
+                    okcalls = False
+                    bad_call = e
+    if ncalls < 2 and okcalls:
+        S3.unknown('scan: create_scanner(files[X], X)', 'only %d call site(s) of create_scanner found' % ncalls)
+    else:
+        S3.check(okcalls, 'scan: create_scanner(files[X], X)', '%d call sites pass the content and the key of the same file' % ncalls,
+                 'a scanner is created with the content of one file and the name of another: %s' % (show(bad_call)[:80] if bad_call else ''), 'Compiler/src/scan.cpp:%d' % scan['loc'][1])
     S4 = rep.rule('C14.S4', 'the scan buffer covers the whole content (length-based entry point), not a NUL-terminated prefix', floor=1)
     content = cs['params'][0]
     bufs = [ev for ev in gc.calls() if (ev.e.get('callee') or '').startswith('yy_scan_')]
@@ -366,12 +374,37 @@ def c15(rep, tier):
     main = scan['params'][1]
     files = scan['params'][0]
 
-    def err_pushes(kind):
+    # scan() and the helpers of scan.cpp it calls (include handling may live in a helper)
+    fam = [scan]
+    frontier = [scan]
+    for _ in range(2):
+        nxt = []
+        for fn_ in frontier:
+            for x in walk_all_exprs(fn_['body']):
+                if x.get('k') == 'call' and x.get('callee_in_repo') and x.get('callee') not in ('create_scanner', 'cleanup_scanner', 'exists_scanner'):
+                    tg = [y for y in sfacts.functions if y['q'] == x['callee'] and y['file'] == scan['file'] and y['tmpl'] in ('none', 'inst')]
+                    if tg and tg[0] not in fam:
+                        fam.append(tg[0])
+                        nxt.append(tg[0])
+        frontier = nxt
+    G_OF = {}
+
+    class EvIn:
+        """an event together with the CFG of the function it lives in"""
+        def __init__(self, fn_, gg, ev):
+            self.fn, self.g, self.ev, self.e = fn_, gg, ev, ev.e
+
+    def fam_calls(pred):
         out = []
-        for ev in g.calls():
-            if is_call(ev.e, '::push_back') and show(ev.e['obj']) == 'errors' and kind in show(ev.e):
-                out.append(ev)
+        for fn_ in fam:
+            gg = M.cfg(fn_)
+            for ev in gg.calls():
+                if pred(ev.e):
+                    out.append(EvIn(fn_, gg, ev))
         return out
+
+    def err_pushes(kind):
+        return fam_calls(lambda e: is_call(e, '::push_back') and show(e['obj']).split('.')[-1] == 'errors' and kind in show(e))
 
     def record_of(ev):
         for x in walk_expr(ev.e):
@@ -386,7 +419,7 @@ def c15(rep, tier):
     if len(ev) == 1:
         rec = record_of(ev[0])
         fr = strip_conv(rec.get('file_request')) if rec.get('file_request') is not None else None
-        okg = guarded(g, ev[0], lambda c: is_call(c, '::contains') and show(c) == 'files.contains(%s)' % main['name'], False)
+        okg = guarded(ev[0].g, ev[0].ev, lambda c: is_call(c, '::contains') and show(c) == 'files.contains(%s)' % main['name'], False)
         ok = fr is not None and fr.get('d') == main['d'] and okg
         why = 'file_request = %s, guarded by !files.contains(main): %s' % (show(fr) if fr else None, okg)
     I1.check(ok, 'scan: missing main', 'errors += {MAIN_FILE_NOT_FOUND, ..., file_request = main} when !files.contains(main)', why, W % scan['loc'][1])
@@ -407,14 +440,19 @@ def c15(rep, tier):
     ok = False
     if len(ev) == 1:
         # the error must be recorded whenever (no token) or (token is not FNAME): the guard is their disjunction, taken
-        conds = [(c, l) for c, l, cn in g.guards_of(ev[0])]
+        conds = [(c, l) for c, l, cn in ev[0].g.guards_of(ev[0].ev)]
         def is_disj(c):
             c = strip_casts(c)
             if c.get('k') != 'bin' or c['op'] != '||':
                 return False
             parts = [show(strip_casts(c['l'])).replace(' ', ''), show(strip_casts(c['r'])).replace(' ', '')]
             return any(p in ('(d==0)', '(0==d)') for p in parts) and any('FNAME' in p and '!=' in p for p in parts)
-        ok = any(l is True and is_disj(c) for c, l in conds) and guarded(g, ev[0], lambda c: c.get('k') == 'bin' and c['op'] == '==' and 'INCLUDE' in show(c), True)
+        inc_guard = guarded(ev[0].g, ev[0].ev, lambda c: c.get('k') == 'bin' and c['op'] == '==' and 'INCLUDE' in show(c), True)
+        if not inc_guard and ev[0].fn is not scan:
+            # the helper is only called under the include test
+            for ce in fam_calls(lambda e: e.get('callee') == ev[0].fn['q']):
+                inc_guard = inc_guard or guarded(ce.g, ce.ev, lambda c: c.get('k') == 'bin' and c['op'] == '==' and 'INCLUDE' in show(c), True)
+        ok = any(l is True and is_disj(c) for c, l in conds) and inc_guard
     I2.check(ok, 'scan: include without name', 'EXPECTED_FILENAME when the next token is missing or not FNAME', 'the malformed include is not reported', W % scan['loc'][1])
     I3 = rep.rule('C15.I3', 'an include of an absent file is reported as FILE_NOT_FOUND and requested by its unquoted name', floor=1)
     ev = err_pushes('FILE_NOT_FOUND')
@@ -425,32 +463,34 @@ def c15(rep, tier):
     if len(ev) == 1:
         rec = record_of(ev[0])
         fr = strip_conv(rec.get('file_request')) if rec.get('file_request') is not None else None
-        if fr is not None and fr.get('k') == 'ref' and guarded(g, ev[0], lambda c: is_call(c, '::contains') and show(c) == 'files.contains(%s)' % fr['name'], False):
+        if fr is not None and fr.get('k') == 'ref' and guarded(ev[0].g, ev[0].ev, lambda c: is_call(c, '::contains') and show(c) == 'files.contains(%s)' % fr['name'], False):
             namevar = fr
             # the name is the token text without its quotes
-            defs = M.defs(scan).get(fr['d'], [])
+            defs = M.defs(ev[0].fn).get(fr['d'], [])
             txt = ' '.join(show(d[1]) for d in defs if d[1] is not None)
             ok = 'substr(1' in txt and 'size() - 2' in txt and '.text' in txt
             why = 'name computed as %s' % txt
     I3.check(ok, 'scan: missing include target', 'FILE_NOT_FOUND with file_request = text.substr(1, size-2) when !files.contains(name)', why, W % scan['loc'][1])
     I4 = rep.rule('C15.I4', 'a file is pushed on the scanner stack only if it exists and is not already being scanned; the recursion test looks at '
                             'every active scanner and records RECURSIVE_INCLUDE', floor=3)
-    pushes = [ev for ev in g.calls() if is_call(ev.e, '::push_back') and show(ev.e['obj']) == 'lex_stack']
+    pushes_in = fam_calls(lambda e: is_call(e, '::push_back') and show(e['obj']) == 'lex_stack')
     loops = [s for s in walk_stmts(scan['body']) if s['k'] in ('while', 'for', 'do')]
-    for ev in pushes:
+    for pin in pushes_in:
+        ev, g = pin.ev, pin.g
+        scan_ = pin.fn
         crt = [x for x in walk_expr(ev.e) if is_call(x, 'create_scanner')]
         if len(crt) != 1:
             I4.unknown('scan: lex_stack.push_back', 'argument is not create_scanner(...)')
             continue
         key = show(strip_conv(crt[0]['args'][1]))
         exists = guarded(g, ev, lambda c: is_call(c, '::contains') and show(c) == 'files.contains(%s)' % key, True)
-        inloop = loops and any(x is ev.e for x in walk_all_exprs(loops[0]['body']))
+        inloop = (scan_ is not scan) or (loops and any(x is ev.e for x in walk_all_exprs(loops[0]['body'])))
         notactive = guarded(g, ev, lambda c: is_call(c, 'exists_scanner') and show(c) == 'exists_scanner(lex_stack, %s)' % key, False)
         # the variable holding the key must not be redefined between the tests and the push
         kv = strip_conv(crt[0]['args'][1])
         stale = []
         if kv.get('k') == 'ref' and kv.get('dk') == 'var':
-            for kind, rhs, node in M.defs(scan).get(kv['d'], []):
+            for kind, rhs, node in M.defs(scan_).get(kv['d'], []):
                 if kind == 'init':
                     continue
                 dev = g.ev(node) if node.get('sid') in g.by_sid else None
@@ -490,8 +530,9 @@ def c15(rep, tier):
     else:
         okes = okes and len(rets) == 2 and strip_casts(rets[-1]['e']).get('v') is False
     I4.check(okes, 'exists_scanner', 'compares the key with every element of the stack; false only after the whole stack', 'the recursion test does not inspect the whole stack', W % es['loc'][1])
+    g = M.cfg(scan)
     ev = err_pushes('RECURSIVE_INCLUDE')
-    ok = len(ev) == 1 and guarded(g, ev[0], lambda c: is_call(c, 'exists_scanner'), True)
+    ok = len(ev) == 1 and guarded(ev[0].g, ev[0].ev, lambda c: is_call(c, 'exists_scanner'), True)
     I4.check(ok, 'scan: recursive include reported', 'RECURSIVE_INCLUDE recorded in the failing branch', 'a recursive include is skipped silently', W % scan['loc'][1])
     I5 = rep.rule('C15.I5', 'exactly the names of absent files are returned as file requests', floor=2)
     parse = sfacts.fn('Theo::parse')
@@ -506,11 +547,13 @@ def c15(rep, tier):
                     kinds = set(x['name'] for x in walk_expr(st['c']) if x.get('k') == 'ref' and x.get('dk') == 'enumerator')
                     pb = [e for e in walk_all_exprs(st['t']) if is_call(e, '::push_back') and 'file_request' in show(e)]
                     okp = bool(pb) and st.get('e') is None
+    gparse = M.cfg(parse)
     for st in walk_stmts(parse['body']):
         if st['k'] == 'rangefor' and 'errors' in show(st['range']):
             for i2 in walk_stmts(st['body']):
                 if i2['k'] == 'if' and any(is_call(e, '::push_back') and 'file_request' in show(e) for e in walk_all_exprs(i2['t'])):
-                    kinds = set(x['name'] for x in walk_expr(i2['c']) if x.get('k') == 'ref' and x.get('dk') == 'enumerator')
+                    cnd = gparse.expanded(i2['c'])
+                    kinds = set(x['name'] for x in walk_expr(cnd) if x.get('k') == 'ref' and x.get('dk') == 'enumerator')
                     okp = True
     I5.check(okp and kinds == {'FILE_NOT_FOUND', 'MAIN_FILE_NOT_FOUND'}, 'parse: requests collected', 'file_request of FILE_NOT_FOUND and MAIN_FILE_NOT_FOUND errors',
              'requests are collected for error kinds %s' % sorted(kinds), 'Compiler/src/parse.cpp:%d' % parse['loc'][1])
